@@ -168,7 +168,8 @@ func (f *artAllocator) allocLeaf(key []byte) (arena.MemdbArenaAddr, *artLeaf) {
 	addr, data := f.nodeAllocator.Alloc(size, true)
 	lf := (*artLeaf)(unsafe.Pointer(&data[0]))
 	lf.keyLen = uint16(len(key))
-	lf.flags = 0
+	// a fresh leaf is not part of the buffer until its first setValue, which counts it exactly once.
+	lf.flags = deleteFlag
 	lf.vLogAddr = arena.NullAddr
 	copy(data[leafSize:], key)
 	return addr, lf
